@@ -126,7 +126,7 @@ pub fn recipe(m: &str, ctx: &Ctx) -> Option<Value> {
         "eth_getTransactionCount" | "eth_getBalance" => json!([ctx.signer, "latest"]),
         "eth_getBlockTransactionCountByNumber" => json!(["1"]),
         "eth_getBlockTransactionCountByHash" | "eth_getUncleCountByBlockHash" => json!([ctx.block1_hash]),
-        "eth_getLogs" => json!([{"fromBlock": "0x0", "toBlock": "latest"}]),
+        "eth_getLogs" => json!([{"fromBlock": "0x0", "toBlock": "0x3"}]), // the server refuses ranges of more than 5 blocks
         "eth_call" | "eth_estimateGas" => json!([call, null]),
         "eth_callMany" | "eth_estimateGasMany" => json!([[call], null, null]),
         "eth_getStorageAt" => json!([ctx.contract, "0x0"]),
@@ -147,7 +147,8 @@ pub fn digest_requests(ctx: &Ctx) -> Vec<(&'static str, Value)> {
         ("eth_getBlockByNumber", json!(["latest", true])),
         ("eth_getBlockByNumber", json!(["0", false])),
         ("txpool_content", json!([])),
-        ("eth_getLogs", json!([{"fromBlock": "0x0", "toBlock": "pending"}])),
+        ("eth_getLogs", json!([{"fromBlock": "0x0", "toBlock": "0x4"}])),
+        ("eth_getLogs", json!([{"fromBlock": "latest", "toBlock": "pending"}])),
         ("brc20_getTxReceiptByInscriptionId", json!(["verif_deploy_i1"])),
         ("brc20_getTxReceiptByInscriptionId", json!(["verif_call_i1"])),
         ("brc20_getTxReceiptByInscriptionId", json!(["verif_transact_i1"])),
